@@ -494,8 +494,11 @@ CatalogFragment::CatalogFragment(DFS::Format format,
 	file_name.vol = vol;
 	file_name.dir = entry.directory();
 	file_name.name = entry.name();
+	// A zero-length file has a start sector but occupies no sectors.
+	const auto end_sector =
+	  entry.file_length() ? entry.last_sector() + 1 : entry.start_sector();
 	out->add_file_sectors(DFS::sector_count(data_origin_lba + entry.start_sector()),
-			      DFS::sector_count(data_origin_lba + entry.last_sector() + 1),
+			      DFS::sector_count(data_origin_lba + end_sector),
 			      file_name);
       }
   }
